@@ -462,7 +462,10 @@ class CliffordGate(raw_types.Gate, CommonCliffordGates):
             axes = sim_state.get_axes(qubits)
             # This padding is important and cannot be omitted.
             padded_tableau = _pad_tableau(self._clifford_tableau, len(sim_state.qubits), axes)
-            sim_state._state = sim_state.tableau.then(padded_tableau)
+            # Edit the tableau of the simulation state in place: the caller may hold on to it.
+            tableau = sim_state.tableau
+            merged = tableau.then(padded_tableau)
+            tableau.xs, tableau.zs, tableau.rs = merged.xs, merged.zs, merged.rs
             return True
 
         if isinstance(sim_state, sim.clifford.StabilizerChFormSimulationState):  # pragma: no cover
